@@ -82,14 +82,16 @@ def Branch.Consistent (s : Branch) : Prop := 0 < s.cf.count → 0 < s.repo.depth
 
 /-! ### log-free cores -/
 
-def Phys.core (p : Phys) : Phys := { p with log := [] }
+/-- `viaTok` is dead data while the lock is not held (`lock_write` assigns it on every
+acquisition, `unlock` is its only reader), so the core normalises it then -/
+def Phys.core (p : Phys) : Phys := { p with log := [], viaTok := p.held.isSome && p.viaTok }
 def LF.core (s : LF) : LF := { s with phys := s.phys.core }
 def Repo.core (s : Repo) : Repo := { s with cf := s.cf.core, fbLog := [] }
 def Branch.core (s : Branch) : Branch := { cf := s.cf.core, repo := s.repo.core }
 
 /-! ### CountedLock -/
 
-theorem CL.inv_init (ext : Bool) : (CL.init ext).Inv :=
+theorem CL.inv_init (ext : Bool) (rb : Bool := false) : (CL.init ext rb).Inv :=
   ⟨rfl, by simp [CL.init], Balanced.nil⟩
 
 theorem Phys.lockWrite_ok {p p' : Phys} {tok t : Option Nat} (h : p.lockWrite tok = .ok (p', t)) :
@@ -105,6 +107,20 @@ theorem Phys.lockWrite_ok {p p' : Phys} {tok t : Option Nat} (h : p.lockWrite to
     · injection h with h; injection h with h1 h2; subst h1
       exact ⟨rfl, .acqW, by decide, rfl⟩
 
+theorem Phys.lockRead_ok {p p' : Phys} (h : p.lockRead = .ok p') :
+    p' = { p with held := some .r, log := p.log ++ [.acqR] } ∧ p.rblock = false := by
+  unfold Phys.lockRead at h
+  split at h
+  · cases h
+  · next hb => injection h with h; exact ⟨h.symm, by simpa using hb⟩
+
+theorem Phys.lockRead_err {p : Phys} {e : Err} (h : p.lockRead = .error e) :
+    e = .contention ∧ p.rblock = true := by
+  unfold Phys.lockRead at h
+  split at h
+  · next hb => injection h with h; exact ⟨h.symm, hb⟩
+  · cases h
+
 theorem CL.inv_step {s : CL} (h : s.Inv) (o : Op) : (s.step o).1.Inv := by
   obtain ⟨h1, h2, h3⟩ := h
   cases o with
@@ -114,10 +130,14 @@ theorem CL.inv_step {s : CL} (h : s.Inv) (o : Op) : (s.step o).1.Inv := by
     · next hm => exact ⟨h1, by simp_all, h3⟩
     · next hm =>
       have hh : s.phys.held = none := by rw [← h1]; simpa using hm
-      refine ⟨rfl, by simp, ?_⟩
-      simp only [Phys.lockRead, Option.isSome_some]
-      rw [hh] at h3
-      exact h3.acquire _ (by decide)
+      split
+      · exact ⟨h1, h2, h3⟩
+      · next p hp =>
+        obtain ⟨rfl, _⟩ := Phys.lockRead_ok hp
+        refine ⟨rfl, by simp, ?_⟩
+        simp only [Option.isSome_some]
+        rw [hh] at h3
+        exact h3.acquire _ (by decide)
   | lockWrite tok =>
     simp only [CL.step, CL.lockWrite]
     split
@@ -163,7 +183,7 @@ theorem CL.inv_run {s : CL} (h : s.Inv) (ops : List Op) : (s.run ops).Inv := by
 
 /-! ### LockableFiles -/
 
-theorem LF.inv_init (ext : Bool) : (LF.init ext).Inv :=
+theorem LF.inv_init (ext : Bool) (rb : Bool := false) : (LF.init ext rb).Inv :=
   ⟨rfl, rfl, by simp [LF.init], Balanced.nil⟩
 
 theorem LF.inv_step {s : LF} (h : s.Inv) (o : Op) : (s.step o).1.Inv := by
@@ -177,11 +197,15 @@ theorem LF.inv_step {s : LF} (h : s.Inv) (o : Op) : (s.step o).1.Inv := by
       have hmn : s.mode = none := by simpa using hm
       have hh : s.phys.held = none := by rw [← h1]; exact hmn
       have htn : s.txn = none := by rw [ht]; exact hmn
-      simp only [htn, Option.isSome_none, Bool.false_eq_true, if_false]
-      refine ⟨rfl, rfl, by simp, ?_⟩
-      simp only [Phys.lockRead, Option.isSome_some]
-      rw [hh] at h3
-      exact h3.acquire _ (by decide)
+      split
+      · exact ⟨h1, ht, h2, h3⟩
+      · next p hp =>
+        obtain ⟨rfl, _⟩ := Phys.lockRead_ok hp
+        simp only [htn, Option.isSome_none, Bool.false_eq_true, if_false]
+        refine ⟨rfl, rfl, by simp, ?_⟩
+        simp only [Option.isSome_some]
+        rw [hh] at h3
+        exact h3.acquire _ (by decide)
   | lockWrite tok =>
     simp only [LF.step, LF.lockWrite]
     split
@@ -230,23 +254,38 @@ theorem LF.inv_run {s : LF} (h : s.Inv) (ops : List Op) : (s.run ops).Inv := by
   | nil => exact h
   | cons o ops ih => exact ih (LF.inv_step h o)
 
+/-- `lock_read`: refused by the physical lock (only on the first lock of a
+read-blocked lock) with nothing changed, or granted -/
 theorem LF.lockRead_spec {s : LF} (h : s.Inv) :
-    ∃ s', s.lockRead = (s', .ok none) ∧ s'.count = s.count + 1 ∧ s'.Inv ∧
-      (0 < s.count → s' = { s with count := s.count + 1 }) := by
+    (s.count = 0 ∧ s.phys.rblock = true ∧ s.lockRead = (s, .error .contention)) ∨
+    (∃ s', s.lockRead = (s', .ok none) ∧ s'.count = s.count + 1 ∧ s'.Inv ∧
+      (0 < s.count → s' = { s with count := s.count + 1 }) ∧
+      (s.count = 0 → s.phys.rblock = false)) := by
   have hi := LF.inv_step h .lockRead
   obtain ⟨h1, ht, h2, h3⟩ := h
   simp only [LF.step] at hi
   unfold LF.lockRead at hi ⊢
   split
-  · next hm => exact ⟨_, rfl, rfl, by simpa [hm] using hi, fun _ => rfl⟩
+  · next hm =>
+    right
+    have := h2.mp hm
+    exact ⟨_, rfl, rfl, by simpa [hm] using hi, fun _ => rfl, by intro; omega⟩
   · next hm =>
     have hmn : s.mode = none := by simpa using hm
     have htn : s.txn = none := by rw [ht]; exact hmn
     have hc : s.count = 0 := by
       have : ¬ 0 < s.count := fun h => hm (h2.mpr h)
       omega
-    simp only [hm, htn, Option.isSome_none, Bool.false_eq_true, if_false] at hi ⊢
-    exact ⟨_, rfl, by simp [hc], hi, fun h => by omega⟩
+    cases hp : s.phys.lockRead with
+    | error e =>
+      left
+      obtain ⟨rfl, hb⟩ := Phys.lockRead_err hp
+      exact ⟨hc, hb, rfl⟩
+    | ok p =>
+      right
+      obtain ⟨_, hb⟩ := Phys.lockRead_ok hp
+      simp only [hm, hp, htn, Option.isSome_none, Bool.false_eq_true, if_false] at hi ⊢
+      exact ⟨_, rfl, by simp [hc], hi, fun h => by omega, fun _ => hb⟩
 
 theorem LF.unlock_spec {s : LF} (h : s.Inv) :
     (s.count = 0 ∧ s.unlock = (s, .error .notHeld)) ∨
@@ -314,25 +353,32 @@ theorem Repo.lockWrite_spec {s : Repo} (_h : s.Inv) (tok : Option Nat) :
 
 theorem Repo.lockRead_spec {s : Repo} (h : s.Inv) :
     (0 < s.wcount ∧ s.lockRead = ({ s with wcount := s.wcount + 1 }, .ok none)) ∨
+    (s.depth = 0 ∧ s.cf.phys.rblock = true ∧ s.lockRead = (s, .error .contention)) ∨
     (s.wcount = 0 ∧ ∃ cf', s.cf.lockRead = (cf', .ok none) ∧ cf'.count = s.cf.count + 1 ∧ cf'.Inv ∧
       (0 < s.cf.count → cf' = { s.cf with count := s.cf.count + 1 }) ∧
       s.lockRead = (if 0 < s.cf.count then { s with cf := cf' }
         else { s with cf := cf', fb := s.fb + 1, fbLog := s.fbLog ++ [.acqR] }, .ok none)) := by
   have hl := Repo.isLocked_iff s
-  unfold Repo.depth at hl
+  unfold Repo.depth at hl ⊢
   unfold Repo.lockRead Repo.lockFallbacks
   by_cases hw : s.wcount = 0
   · right
-    obtain ⟨cf', h1, h2, h3, h4⟩ := LF.lockRead_spec h.cf
-    refine ⟨hw, cf', h1, h2, h3, h4, ?_⟩
-    by_cases hc : 0 < s.cf.count
-    · have : s.isLocked = true := hl.mpr (by omega)
-      simp [hw, h1, this, hc]
-    · have : s.isLocked = false := by
-        cases hb : s.isLocked with
-        | false => rfl
-        | true => have := hl.mp hb; omega
-      simp [hw, h1, this, hc]
+    rcases LF.lockRead_spec h.cf with ⟨hc, hb, he⟩ | ⟨cf', h1, h2, h3, h4, _⟩
+    · left
+      refine ⟨by omega, hb, ?_⟩
+      simp only [hw, ne_eq, not_true_eq_false, if_false, he]
+      cases s
+      simp_all
+    · right
+      refine ⟨hw, cf', h1, h2, h3, h4, ?_⟩
+      by_cases hc : 0 < s.cf.count
+      · have : s.isLocked = true := hl.mpr (by omega)
+        simp [hw, h1, this, hc]
+      · have : s.isLocked = false := by
+          cases hb : s.isLocked with
+          | false => rfl
+          | true => have := hl.mp hb; omega
+        simp [hw, h1, this, hc]
   · left
     have : s.isLocked = true := hl.mpr (by omega)
     exact ⟨by omega, by simp [hw, this]⟩
@@ -402,7 +448,7 @@ theorem Repo.inv_step {s : Repo} (h : s.Inv) (o : Op) : (s.step o).1.Inv := by
       · omega
   | lockRead =>
     simp only [Repo.step]
-    rcases Repo.lockRead_spec h with ⟨hw, e⟩ | ⟨hw, cf', _, hcc, hi, _, e⟩
+    rcases Repo.lockRead_spec h with ⟨hw, e⟩ | ⟨_, _, e⟩ | ⟨hw, cf', _, hcc, hi, _, e⟩
     · rw [e]
       have hc : s.cf.count = 0 := by omega
       refine ⟨hcf, Or.inr hc, ?_, ?_, ?_, ?_⟩ <;> dsimp only [Repo.depth] <;> intro h0
@@ -410,6 +456,7 @@ theorem Repo.inv_step {s : Repo} (h : s.Inv) (o : Op) : (s.step o).1.Inv := by
       · omega
       · exact hbp (by omega)
       · omega
+    · rw [e]; exact h
     · rw [e]
       by_cases hc : 0 < s.cf.count
       · simp only [hc, if_true]
@@ -458,8 +505,8 @@ theorem Repo.inv_step {s : Repo} (h : s.Inv) (o : Op) : (s.step o).1.Inv := by
         · omega
         · exact (hbp (by omega)).release
 
-theorem Repo.inv_init (ext : Bool) : (Repo.init ext).Inv :=
-  ⟨LF.inv_init ext, Or.inl rfl, by intro h; simp [Repo.init, Repo.depth, LF.init] at h, fun _ => rfl,
+theorem Repo.inv_init (ext : Bool) (rb : Bool := false) : (Repo.init ext rb).Inv :=
+  ⟨LF.inv_init ext rb, Or.inl rfl, by intro h; simp [Repo.init, Repo.depth, LF.init] at h, fun _ => rfl,
    by intro h; simp [Repo.init, Repo.depth, LF.init] at h, fun _ => Balanced.nil⟩
 
 theorem Repo.inv_run {s : Repo} (h : s.Inv) (ops : List Op) : (s.run ops).Inv := by
@@ -535,7 +582,8 @@ theorem Branch.inv_step {s : Branch} (h : s.Inv) (o : SOp) : (s.step o).1.Inv :=
         cases r' <;> exact ⟨hc, hu⟩
       · exact ⟨hc, h.repo⟩
 
-theorem Branch.inv_init (ext : Bool) : (Branch.init ext).Inv := ⟨LF.inv_init ext, Repo.inv_init ext⟩
+theorem Branch.inv_init (ext : Bool) (rbB : Bool := false) (rbR : Bool := false) :
+    (Branch.init ext rbB rbR).Inv := ⟨LF.inv_init ext rbB, Repo.inv_init ext rbR⟩
 
 theorem Branch.inv_run {s : Branch} (h : s.Inv) (ops : List SOp) : (s.run ops).Inv := by
   induction ops generalizing s with
@@ -584,5 +632,81 @@ theorem Repo.lockWrite_unlock_core {s : Repo} (h : s.Inv) {r : Repo} {t : Option
       simp only [Nat.lt_irrefl, if_false]
       simp [Repo.core]; omega
     · simp only at hw'; omega
+
+/-- taking a read lock on control files and giving it back restores the lock state -/
+theorem LF.lockRead_unlock_core {s s' : LF} (h : s.Inv) {t : Option Nat}
+    (e : s.lockRead = (s', .ok t)) : ∃ s'', s'.unlock = (s'', .ok none) ∧ s''.core = s.core := by
+  obtain ⟨h1, ht, h2, h3⟩ := h
+  unfold LF.lockRead at e
+  split at e
+  · next hm =>
+    have hc := h2.mp hm
+    injection e with e1 _; subst e1
+    refine ⟨s, ?_, rfl⟩
+    have : s.mode.isNone = false := by
+      cases hmm : s.mode with
+      | none => simp [hmm] at hm
+      | some _ => rfl
+    have h1' : s.count + 1 > 1 := by omega
+    simp only [LF.unlock, this, Bool.false_eq_true, if_false, h1', if_true]
+    cases s; simp
+  · next hm =>
+    have hmn : s.mode = none := by simpa using hm
+    have htn : s.txn = none := by rw [ht]; exact hmn
+    have hh : s.phys.held = none := by rw [← h1]; exact hmn
+    have hc : s.count = 0 := by
+      have : ¬ 0 < s.count := fun h => hm (h2.mpr h)
+      omega
+    split at e
+    · cases e
+    · next p hp =>
+      obtain ⟨rfl, _⟩ := Phys.lockRead_ok hp
+      simp only [htn, Option.isSome_none, Bool.false_eq_true, if_false] at e
+      have e1 := (Prod.mk.inj e).1
+      refine ⟨s'.unlock.1, ?_, ?_⟩ <;> rw [← e1]
+      · simp [LF.unlock]
+      · simp only [LF.unlock, LF.core, Phys.core, Phys.unlock]
+        cases s with
+        | mk mode count txn tfl phys =>
+          cases phys
+          simp_all
+
+/-- taking a repository read lock and giving it back restores the lock state -/
+theorem Repo.lockRead_unlock_core {s : Repo} (h : s.Inv) {r : Repo} {t : Option Nat}
+    (e : s.lockRead = (r, .ok t)) : ∃ r', r.unlock = (r', .ok none) ∧ r'.core = s.core := by
+  have hr : r.Inv := by have := Repo.lockRead_inv h; rw [e] at this; exact this
+  rcases Repo.lockRead_spec h with ⟨hw, e'⟩ | ⟨_, _, e'⟩ | ⟨hw, cf', ecf, hcc, hi, hn, e'⟩
+  · rw [e'] at e; injection e with e1 _; subst e1
+    rcases Repo.unlock_spec hr with ⟨hd', _⟩ | ⟨_, eu⟩ | ⟨hw', _⟩
+    · simp only [Repo.depth] at hd'; omega
+    · refine ⟨_, eu, ?_⟩
+      have : 1 < s.wcount + 1 := by omega
+      simp only [this, if_true]
+      simp [Repo.core]
+    · simp only at hw'; omega
+  · rw [e'] at e; cases e
+  · rw [e'] at e; injection e with e1 _; subst e1
+    obtain ⟨cf'', eu2, hcore⟩ := LF.lockRead_unlock_core h.cf ecf
+    by_cases hc : 0 < s.cf.count
+    · simp only [hc, if_true] at hr ⊢
+      rcases Repo.unlock_spec hr with ⟨hd', _⟩ | ⟨hw', _⟩ | ⟨_, _, cf3, eu3, _, _, eu⟩
+      · simp only [Repo.depth] at hd'; omega
+      · simp only at hw'; omega
+      · simp only at eu3 eu
+        rw [eu2] at eu3; injection eu3 with e3 _; subst e3
+        refine ⟨_, eu, ?_⟩
+        have : 1 < cf'.count := by omega
+        simp only [this, if_true]
+        simp [Repo.core, hcore]
+    · simp only [hc, if_false] at hr ⊢
+      rcases Repo.unlock_spec hr with ⟨hd', _⟩ | ⟨hw', _⟩ | ⟨_, _, cf3, eu3, _, _, eu⟩
+      · simp only [Repo.depth] at hd'; omega
+      · simp only at hw'; omega
+      · simp only at eu3 eu
+        rw [eu2] at eu3; injection eu3 with e3 _; subst e3
+        refine ⟨_, eu, ?_⟩
+        have : ¬ 1 < cf'.count := by omega
+        simp only [this, if_false]
+        simp [Repo.core, hcore]
 
 end BreezyVerif.C28
